@@ -7,6 +7,7 @@ pub mod c09;
 pub mod c10;
 pub mod c12;
 pub mod c13;
+pub mod c14;
 pub mod c16;
 pub mod e1;
 pub mod e2;
@@ -51,6 +52,7 @@ pub fn dispatch(id: &str, tier: Tier, replay: Option<&str>, budget: Duration) ->
         "C10" => c10::run(&mut report),
         "C12" => c12::run(&mut report),
         "C13" => c13::run(&mut report),
+        "C14" => c14::run(&mut report),
         _ => {
             eprintln!("unknown property {id}");
             return 2;
